@@ -23,7 +23,7 @@ RULE = (
 ASSUMPTIONS = ["output directories exist", "clean backend (no tracked jobs), sources dated in the past"]
 
 
-QUICK_BUDGET = {"cases": 480, "deadline_s": 90, "case_timeout_s": 60, "floors": {"touch_runs": 460, "edges_ordered": 700, "status_rows": 1400, "contents_compared": 2000}}
+QUICK_BUDGET = {"cases": 480, "deadline_s": 170, "case_timeout_s": 60, "floors": {"touch_runs": 168, "edges_ordered": 518, "status_rows": 583, "contents_compared": 2000}}
 THOROUGH_FACTOR = 50  # thorough = the same workload with 50x the cases (floors scale along)
 
 
